@@ -189,6 +189,17 @@ template <class T> static void frusta (Gen<T>& g, int it)
     rec ("normalizedZToDepth", jv (zn), side ("", 1, jv (f.normalizedZToDepth (zn))), guarded ([&] { return side ("", 1, jv (f.normalizedZToDepthExc (zn))); }));
     long zi = g.rng.range (0, 1000);
     rec ("ZToDepth", jv ((T) zi), side ("", 1, jv (f.ZToDepth (zi, 0, 1000))), guarded ([&] { return side ("", 1, jv (f.ZToDepthExc (zi, 0, 1000))); }));
+    {
+        // other integer z ranges, up to spans that do not fit an int (both forms must still agree bit for bit)
+        static const long zr[6][2] = {{-100, 923}, {0, 65535}, {0, 16777215}, {0, 2147483647L}, {0, 3000000000L}, {-2147483647L - 1, 2147483647L}};
+        const long* zz = zr[(it / 2) % 6];
+        long zv = zz[0] + (long) ((double) (zz[1] - zz[0]) * (double) g.rng.range (0, 16) / 16.0);
+        T za[3] = {(T) zv, (T) zz[0], (T) zz[1]};
+        rec ("ZToDepth", jlist (za, 3), side ("", 1, jv (f.ZToDepth (zv, zz[0], zz[1]))), guarded ([&] { return side ("", 1, jv (f.ZToDepthExc (zv, zz[0], zz[1]))); }));
+        T dd = -(T) (nr + (double) dz * (double) g.rng.range (1, 15) / 16.0);
+        T da[3] = {dd, (T) zz[0], (T) zz[1]};
+        rec ("DepthToZ", jlist (da, 3), side ("", 1, jv ((T) f.DepthToZ (dd, zz[0], zz[1]))), guarded ([&] { return side ("", 1, jv ((T) f.DepthToZExc (dd, zz[0], zz[1]))); }));
+    }
     T depth = (it % 6 == 0) ? (T) 0 : (it % 6 == 1 ? -tiny : -(T) (nr + std::fabs ((double) g.full ())));
     rec ("DepthToZ", jv (depth), side ("", 1, jv ((T) f.DepthToZ (depth, 0, 1000))), guarded ([&] { return side ("", 1, jv ((T) f.DepthToZExc (depth, 0, 1000))); }));
     T rad = (T) std::fabs ((double) g.full ());
